@@ -979,3 +979,170 @@ func runLock(c *Ctx) []Ob {
 	obs = append(obs, floor("LOCK/handlers", "go sites reachable from handlers", nGo, 8))
 	return obs
 }
+
+// ---------------------------------------------------------------------------------------------
+// POOL: what a launcher hands to its workers
+
+// definedInLoop: v's defining instruction lies in the loop body.
+func definedIn(body map[*ssa.BasicBlock]bool, v ssa.Value) bool {
+	ins, ok := v.(ssa.Instruction)
+	return ok && body[ins.Block()]
+}
+
+var rulePool = &Rule{
+	Name:    "POOL/per-task-objects",
+	NeedSSA: true,
+	Text:    "a worker-pool launcher sends one task struct per file to its workers inside a loop; every mutable object (pointer, map, slice, interface) reachable from a sent task is either created inside that loop iteration (one per task) or handed in through the launcher's own parameters (project-wide state shared by design). An object created once in the launcher, outside the loop, and placed in every task is shared by concurrently running workers — its methods' scratch state races and results depend on scheduling",
+	Run: func(c *Ctx) []Ob {
+		var obs []Ob
+		n := 0
+		for _, f := range c.ModFns() {
+			if _, ok := joinedSpawners[fnKey(f)]; !ok {
+				continue
+			}
+			loops := loopsOf(f)
+			cnt := 0
+			for _, b := range f.Blocks {
+				for _, ins := range b.Instrs {
+					snd, ok := ins.(*ssa.Send)
+					if !ok {
+						continue
+					}
+					// innermost loop containing the send (if any); sends outside loops: treat whole function as "one task"
+					var body map[*ssa.BasicBlock]bool
+					for _, bd := range loops {
+						if bd[b] && (body == nil || len(bd) < len(body)) {
+							body = bd
+						}
+					}
+					if body == nil {
+						continue
+					}
+					// objects created in ANY loop iteration of the launcher are per-task (slots filled by one loop, sent by another)
+					anyLoop := map[*ssa.BasicBlock]bool{}
+					for _, bd := range loops {
+						for k := range bd {
+							anyLoop[k] = true
+						}
+					}
+					body = anyLoop
+					n++
+					cnt++
+					key := fmt.Sprintf("POOL:%s:send#%d", fnKey(f), cnt)
+					bad := ""
+					seen := map[ssa.Value]bool{}
+					var walk func(v ssa.Value, d int)
+					walk = func(v ssa.Value, d int) {
+						if v == nil || d > 8 || seen[v] || bad != "" {
+							return
+						}
+						seen[v] = true
+						switch x := v.(type) {
+						case *ssa.Parameter, *ssa.Const, *ssa.Global, *ssa.FreeVar:
+							return
+						case *ssa.UnOp:
+							if x.Op == token.MUL {
+								// load: of a local struct being assembled (walk its stores) or of shared memory (param-derived: fine)
+								if al, ok := x.X.(*ssa.Alloc); ok {
+									walk(al, d+1)
+									return
+								}
+								if _, _, ok := paramPath(x.X, 0); ok {
+									return
+								}
+								if ia, ok := x.X.(*ssa.IndexAddr); ok {
+									// slot of a launcher-local slice (resultSorters[i]): look at what the launcher stores into that slice
+									for _, b3 := range f.Blocks {
+										for _, i3 := range b3.Instrs {
+											if st, ok := i3.(*ssa.Store); ok {
+												if ia2, ok := st.Addr.(*ssa.IndexAddr); ok && canon(ia2.X) == canon(ia.X) {
+													walk(st.Val, d+1)
+												}
+											}
+										}
+									}
+									return
+								}
+								walk(x.X, d+1)
+							}
+							return
+						case *ssa.Alloc:
+							mut := isMutableType(x.Type().Underlying().(*types.Pointer).Elem())
+							if !definedIn(body, x) && mut && x.Heap {
+								bad = "object allocated at " + c.Pos(x.Pos()) + " outside the task loop"
+								return
+							}
+							if refs := x.Referrers(); refs != nil {
+								for _, r := range *refs {
+									switch y := r.(type) {
+									case *ssa.Store:
+										if y.Addr == ssa.Value(x) {
+											walk(y.Val, d+1)
+										}
+									case *ssa.FieldAddr:
+										if frefs := y.Referrers(); frefs != nil {
+											for _, rr := range *frefs {
+												if st, ok := rr.(*ssa.Store); ok && st.Addr == ssa.Value(y) && (definedIn(body, x) || body[st.Block()]) {
+													walk(st.Val, d+1)
+												}
+											}
+										}
+									}
+								}
+							}
+							return
+						case *ssa.Call:
+							if !isMutableType(x.Type()) {
+								return
+							}
+							if !definedIn(body, x) {
+								bad = "result of " + describeCallee(&x.Call) + " at " + c.Pos(x.Pos()) + ", obtained once outside the task loop"
+							}
+							return
+						case *ssa.MakeMap, *ssa.MakeSlice, *ssa.MakeChan:
+							if !definedIn(body, v) {
+								bad = "container made at " + c.Pos(v.(ssa.Instruction).Pos()) + " outside the task loop"
+							}
+							return
+						case *ssa.Phi:
+							for _, e := range x.Edges {
+								walk(e, d+1)
+							}
+							return
+						case *ssa.MakeInterface:
+							walk(x.X, d+1)
+							return
+						case *ssa.IndexAddr:
+							// element of a slice: per-index slot (e.g. chs[i], resultSorters[i]) — the slice itself is launcher-local bookkeeping
+							return
+						case *ssa.FieldAddr, *ssa.Field, *ssa.Extract, *ssa.Slice, *ssa.Lookup, *ssa.Index, *ssa.ChangeType, *ssa.Convert, *ssa.BinOp:
+							return
+						}
+					}
+					walk(snd.X, 0)
+					if bad == "" {
+						obs = append(obs, Ob{Key: key, Site: c.Pos(snd.Pos()), Verdict: OK, Note: "every mutable object in the task is per-iteration or comes from the launcher's parameters"})
+					} else {
+						obs = append(obs, Ob{Key: key, Site: c.Pos(snd.Pos()), Verdict: VIOLATION, Note: "the task sent to the workers carries a " + bad + ": all workers share it"})
+					}
+				}
+			}
+		}
+		obs = append(obs, floor("POOL/per-task-objects", "task sends inside loops of pool launchers", n, 8))
+		return obs
+	},
+}
+
+func isMutableType(t types.Type) bool {
+	switch x := types.Unalias(t).Underlying().(type) {
+	case *types.Pointer, *types.Map, *types.Slice, *types.Interface, *types.Chan:
+		return true
+	case *types.Struct:
+		for i := 0; i < x.NumFields(); i++ {
+			if isMutableType(x.Field(i).Type()) {
+				return true
+			}
+		}
+	}
+	return false
+}
